@@ -38,7 +38,7 @@ class C09(Prop):
     pkg = "hdog"
     binname = "c09"
     quick_cases = 2400
-    thorough_cases = 40000
+    thorough_cases = 12000
     shard = 150
     design_ref = "DESIGN.md 4 C09"
     technique = ("Coq proof about a statement-by-statement model of PayloadWriter (byte-list state machine, panics explicit) against an "
@@ -144,7 +144,7 @@ class C09(Prop):
             else:
                 rate = rng.weighted([(3, None), (1, f2b(rng.pick(RATES)))])
                 if big:
-                    nv = rng.weighted([(3, rng.range(0, 12)), (2, rng.range(10, 300)), (1, rng.range(300, 3000))])
+                    nv = rng.weighted([(12, rng.range(0, 12)), (4, rng.range(10, 300)), (1, rng.range(300, 3000))])
                 else:
                     nv = rng.weighted([(6, rng.range(0, 12)), (2, rng.range(10, 60)), (1, rng.range(60, 300))])
                 if rng.chance(1, 3):
@@ -158,7 +158,7 @@ class C09(Prop):
         return dict(max=mx, lp=lp, prefix=pfx, glabels=gl, ops=ops)
 
     def gen(self, rng, n):
-        big = n > 10000
+        big = n > 5000
         return [self.gen_one(rng, big) for _ in range(n)]
 
     # ------------------------------------------------------------------ driver protocol
